@@ -7,7 +7,7 @@ from fractions import Fraction
 
 import numpy as np
 
-from .. import gen1, gennd
+from .. import gen1, gennd, implnd
 from ..core import rs
 from .basen import HistNProp
 
@@ -319,6 +319,507 @@ def axis_list_problem(axes, names, d):
     return None
 
 
+# ------------------------------------------------------------------ results addressed by name (streams transformed, odd_names)
+#
+# Both streams use the `named` layout: every register is written once, and every op that produces a register carries the
+# generator's bookkeeping of which axes OF THE PARENT (register 0) it holds and in which order (`_prov`); every reference to
+# an axis carries the position in the histogram it is applied to that the generator means (`_axes` / `_axis`).  A reference
+# by name always uses the name the PARENT carries on that axis -- the property says a projection keeps the names of the kept
+# axes, so the result has to be addressable by them.  The oracle reads the bookkeeping only after checking that the parent
+# reports the names the generator gave it.
+
+ENABLE_TRANSFORMED = True
+ENABLE_ODD_NAMES = True
+
+# the classes of physt.special_histograms: facade function, kind of each coordinate (for plausible bins), documented default
+# axis names, and the 2-d projections of the parent that come back as a plain Histogram2D (the only class that has `.T`)
+SPECIAL = {
+    "PolarHistogram": {"facade": "polar", "kinds": ["r", "phi"], "defaults": ["r", "phi"], "plain2d": [],
+                       "bins_kw": ["radial_bins", "phi_bins"]},
+    "SphericalSurfaceHistogram": {"facade": "spherical_surface", "kinds": ["theta", "phi"], "defaults": ["theta", "phi"],
+                                  "plain2d": [], "bins_kw": ["theta_bins", "phi_bins"]},
+    "CylindricalSurfaceHistogram": {"facade": "cylindrical_surface", "kinds": ["phi", "z"], "defaults": ["phi", "z"],
+                                    "plain2d": [], "bins_kw": ["phi_bins", "z_bins"]},
+    "SphericalHistogram": {"facade": "spherical", "kinds": ["r", "theta", "phi"], "defaults": ["r", "theta", "phi"],
+                           "plain2d": [(0, 1), (0, 2)], "bins_kw": ["radial_bins", "theta_bins", "phi_bins"]},
+    "CylindricalHistogram": {"facade": "cylindrical", "kinds": ["r", "phi", "z"], "defaults": ["rho", "phi", "z"],
+                             "plain2d": [(0, 2)], "bins_kw": ["rho_bins", "phi_bins", "z_bins"]},
+}
+SPECIAL_CHOICE = ["CylindricalHistogram"] * 3 + ["SphericalHistogram"] * 2 + ["PolarHistogram"] * 2 + \
+                 ["SphericalSurfaceHistogram", "CylindricalSurfaceHistogram"]
+# facades that hand `axis_names=` on to the histogram (spherical / cylindrical_surface drop the keyword: those histograms
+# are named through the `axis_names` setter)
+FACADE_TAKES_NAMES = ("polar", "spherical_surface", "cylindrical")
+NAME_POOL = ["radius", "angle", "height", "a", "b", "c", "R", "Phi", "u", "v", "w", "distance", "polar angle"]
+UNICODE_NAMES = ["φ", "θ", "ρ", "名前", "é", "naïve", "x y", " x", "x ", "X", "Δt",
+                 "ось", "p_T [GeV/c]", "None", "nan", "x.y", "x,y", "'x'"]
+
+
+def coord_pairs(rng, kind):
+    """consecutive bins of a plausible range for that kind of coordinate, all edges dyadic"""
+    if kind == "r":
+        start, widths, n = rng.choice([0, 0, 0.5, 1]), [0.5, 1, 1.5, 2], rng.randint(1, 3)
+    elif kind == "phi":
+        start, widths, n = rng.choice([0, 0, 0.75, 1.5]), [0.75, 1.5], rng.randint(1, 4)
+        widths = [rng.choice(widths)]
+    elif kind == "theta":
+        start, widths, n = rng.choice([0, 0, 0.5]), [0.5, 1, 1.25], rng.randint(1, 2)
+    else:
+        start, widths, n = rng.choice([-2, -1, 0, 0.5]), [0.5, 1, 2], rng.randint(1, 3)
+    pairs, x = [], float(start)
+    for _ in range(n):
+        w = rng.choice(widths)
+        pairs.append([x, x + w])
+        x += w
+    return pairs
+
+
+def special_names(rng, klass):
+    """the axis names given to a histogram of a transformed class (None = the class's defaults), and the kind of choice"""
+    defaults = SPECIAL[klass]["defaults"]
+    d = len(defaults)
+    r = rng.random()
+    if r < 0.25:
+        return None, "default"
+    if r < 0.35:
+        return list(defaults), "default_explicit"
+    if r < 0.6:
+        return rng.sample(NAME_POOL, d), "custom"
+    if r < 0.8:
+        # the documented name of the same coordinate in ANOTHER class ('r' of the polar / spherical classes against 'rho' of
+        # the cylindrical one)
+        other = [{"r": "rho", "rho": "r"}.get(n, n) for n in defaults]
+        if other != defaults:
+            return other, "other_class_default"
+    # the class's own default names, on other axes (polar histogram with axes ('phi', 'r'))
+    perm = list(defaults)
+    while perm == list(defaults):
+        rng.shuffle(perm)
+    return perm, "defaults_permuted"
+
+
+def small_contents(rng, size, dt):
+    isint = dt.startswith("int")
+    f = [rng.choice([0, 0, 1, 2, 3, 5, 8]) if isint else rng.choice([0, 0.5, 1.25, 2, 4.75]) for _ in range(size)]
+    e = None if rng.random() < 0.35 else [rng.randint(0, 9) if isint else rng.randint(0, 40) / 4 for _ in range(size)]
+    if not any(f):
+        f[rng.randrange(size)] = 3 if isint else 1.25
+    return f, e
+
+
+def rand_special_ops(rng, klass=None, names_kind=None):
+    """setup op of a parent of a transformed class; returns (setup ops, d, believed names, tags, extra, plain2d)"""
+    klass = klass or rng.choice(SPECIAL_CHOICE)
+    spec = SPECIAL[klass]
+    d = len(spec["kinds"])
+    while True:
+        names, nk = special_names(rng, klass)
+        if names_kind is None or nk == names_kind or (names_kind == "other_class_default" and "r" not in spec["defaults"]
+                                                      and "rho" not in spec["defaults"] and nk == "defaults_permuted"):
+            break
+    route = "class" if rng.random() < 0.7 else "facade"
+    tags = ["stream:transformed", f"class:{klass}", f"transformed_route:{route}", f"transformed_names:{nk}"]
+    extra = {}
+    if route == "class":
+        while True:
+            pairs = [coord_pairs(rng, k) for k in spec["kinds"]]
+            shape = [len(p) for p in pairs]
+            if max(shape) > 1:
+                break
+        dt = rng.choice(["int64", "int64", "float64", "int32", "float32"])
+        f, e = small_contents(rng, int(np.prod(shape)), dt)
+        named_by = None if names is None else rng.choice(["kwarg", "kwarg", "setter"])
+        init = {"op": "of_special", "class": klass, "out": 0,
+                "axes": [gen1.binning_json(p, ire=True, form=rng.choice(["static_obj", "edges", "pairs"])) for p in pairs],
+                "freq": [rs(x) for x in f], "err2": None if e is None else [rs(x) for x in e], "missed": rs(rng.randint(0, 4)),
+                "dtype": dt, "names": names, "named_by": named_by, "keep": True}
+    else:
+        # through the facade function: cartesian points with dyadic coordinates, explicit edges (or a number of equal angular
+        # bins); which bin a point falls into is the facade's business (C15), the parent is taken as it comes
+        n = rng.randint(4, 16)
+        coords = [-3, -2, -1.5, -1, -0.5, -0.25, 0.25, 0.5, 1, 1.5, 2, 3]
+        pts = [[rng.choice(coords) for _ in range(2 if klass == "PolarHistogram" else 3)] for _ in range(n)]
+        w = None
+        if rng.random() < 0.5:
+            w = [rng.choice([1, 2, 3, 0.5, 1.25, 4]) for _ in range(n)]
+        bins = {}
+        for kw, kind in zip(spec["bins_kw"], spec["kinds"]):
+            if kind in ("phi", "theta") and rng.random() < 0.6:
+                bins[kw] = rng.randint(1, 4)
+            else:
+                p = coord_pairs(rng, kind)
+                if kind in ("r", "z") and len(p) == 1:
+                    p.append([p[0][1], p[0][1] + 1.0])
+                bins[kw] = [rs(p[0][0])] + [rs(q[1]) for q in p]
+        named_by = None
+        if names is not None:
+            named_by = rng.choice(["kwarg", "kwarg", "setter"]) if spec["facade"] in FACADE_TAKES_NAMES else "setter"
+        init = {"op": "facade", "fn": spec["facade"], "class": klass, "out": 0, "points": [[rs(x) for x in p] for p in pts],
+                "weights": None if w is None else [rs(x) for x in w], "bins": bins, "names": names, "named_by": named_by}
+        extra["no_model"] = True
+    if named_by:
+        tags.append(f"named_by:{named_by}")
+    believed = list(names) if names is not None else list(spec["defaults"])
+    plain = {tuple(p) for p in spec["plain2d"]}
+    return [init], d, believed, tags, extra, plain
+
+
+def odd_names(rng, d, pattern=None):
+    """unusual but legitimate axis names for a d-dimensional histogram: (names, pattern); unnamed axes carry '' or None, the
+    named ones are all different"""
+    pattern = pattern or rng.choice(["unnamed_first", "unnamed_first", "unnamed_first", "unnamed_between", "unnamed_last",
+                                     "unnamed_many", "unnamed_many", "unnamed_all", "digits", "digits", "default_shifted",
+                                     "default_shifted", "unicode", "long", "mixed", "mixed"])
+    plain_pool = ["x", "y", "z", "t", "a", "b"]
+
+    def blank():
+        return "" if rng.random() < 0.6 else None
+
+    if pattern.startswith("unnamed") or pattern == "mixed":
+        if pattern == "unnamed_first":
+            un = {0}
+        elif pattern == "unnamed_between":
+            un = {rng.randint(1, d - 2)} if d >= 3 else {0}
+        elif pattern == "unnamed_last":
+            un = {d - 1}
+        elif pattern == "unnamed_all":
+            un = set(range(d))
+        else:
+            un = set(rng.sample(range(d), rng.randint(1, d - 1)))
+            if rng.random() < 0.6:
+                un.add(0)
+                if len(un) == d:
+                    un.discard(d - 1)
+        one = blank()
+        uniform = rng.random() < 0.75
+        if pattern == "mixed":
+            pool = rng.choice([["0", "1", "2", "3"], ["1", "0", "3", "2"], [f"axis{i}" for i in (1, 2, 3, 0)],
+                               UNICODE_NAMES, ["axis0", "0", "x", "φ"]])
+        else:
+            pool = plain_pool if rng.random() < 0.8 else ["0", "1", "y", "axis0", "z"]
+        named = rng.sample(pool, d)
+        return [(one if uniform else blank()) if i in un else named[i] for i in range(d)], pattern
+    if pattern == "digits":
+        r = rng.random()
+        if r < 0.5:
+            nm = [str(i) for i in range(d)]
+            while nm == [str(i) for i in range(d)] and rng.random() < 0.9:
+                rng.shuffle(nm)
+        elif r < 0.8:
+            nm = [str(i + 1) for i in range(d)]              # the name '1' on axis 0, ...
+        else:
+            nm = rng.sample(["-1", "00", "1", "0", "1.0", "2", "+1", "1e0"], d)
+        return nm, pattern
+    if pattern == "default_shifted":
+        r = rng.random()
+        if r < 0.4:
+            nm = [f"axis{(i + 1) % d}" for i in range(d)]
+        elif r < 0.6:
+            nm = [f"axis{d - 1 - i}" for i in range(d)]
+            if d % 2 == 1:
+                nm[d // 2] = "mid"                            # (the middle axis would carry its own default name)
+        else:
+            # one axis named like the default of another one, the others named freely
+            nm = rng.sample(plain_pool, d)
+            i = rng.randrange(d)
+            nm[i] = f"axis{rng.choice([j for j in range(d) if j != i])}"
+        return nm, pattern
+    if pattern == "unicode":
+        return rng.sample(UNICODE_NAMES, d), pattern
+    if pattern == "long":
+        base = rng.choice(["n", "ab", "axis", "φ"]) * rng.choice([100, 300, 1000])
+        if rng.random() < 0.5:
+            return [base + str(i) for i in rng.sample(range(10), d)], pattern      # differ in the last character only
+        return [base + base[0] * i for i in rng.sample(range(6), d)], pattern      # differ in length only
+    raise ValueError(pattern)
+
+
+class NamedBuilder:
+    """ops of the `named` layout after the setup ops (see the comment above)"""
+
+    def __init__(self, rng, names, d, plain2d, parent_T, p_name):
+        self.rng, self.d, self.p_name = rng, d, p_name
+        self.names = [n if isinstance(n, str) and n != "" else None for n in names]     # None: cannot be addressed by name
+        self.plain2d = plain2d          # None: every 2-d result has .T; otherwise the set of parent axis pairs that do
+        self.parent_T = parent_T
+        self.prov = {0: tuple(range(d))}
+        self.ops = []
+        self.nxt = 1
+        self.unnamed_1d = False
+        self.after_unnamed = 0
+
+    def new(self, prov):
+        r = self.nxt
+        self.nxt += 1
+        prov = tuple(prov)
+        self.prov[r] = prov
+        if len(prov) == 1 and self.names[prov[0]] is None:
+            self.unnamed_1d = True      # physt labels the only axis of such a result 'axis0': not routed through the model
+        return r
+
+    def ref(self, h, pos, p=None):
+        pa = self.prov[h][pos]
+        nm = self.names[pa]
+        if nm is not None and self.rng.random() < (self.p_name if p is None else p):
+            if any(self.names[q] is None for q in self.prov[h][:pos]):
+                self.after_unnamed += 1
+            return nm
+        return pos
+
+    def has_T(self, h):
+        pv = self.prov[h]
+        if len(pv) != 2:
+            return False
+        if h == 0:
+            return self.parent_T
+        return self.plain2d is None or tuple(sorted(pv)) in self.plain2d
+
+    def projection(self, h, positions, p=None):
+        axes = [self.ref(h, q, p) for q in positions]
+        out = self.new(self.prov[h][q] for q in sorted(positions))
+        self.ops.append({"op": "projection", "h": h, "axes": axes, "out": out, "_axes": list(positions),
+                         "_prov": list(self.prov[out])})
+        return out
+
+    def transpose(self, h):
+        out = self.new(reversed(self.prov[h]))
+        self.ops.append({"op": "T", "h": h, "out": out, "_prov": list(self.prov[out])})
+        return out
+
+    def accumulate(self, h, pos, p=None):
+        out = self.nxt
+        self.nxt += 1
+        self.ops.append({"op": "accumulate", "h": h, "axis": self.ref(h, pos, p), "out": out, "_axis": pos})
+        return out
+
+    def twin(self, h, pos, call):
+        """one call with a single axis argument by name, and the same call by the index of the axis carrying that name"""
+        nm = self.names[self.prov[h][pos]]
+        if nm is None:
+            return
+        if any(self.names[q] is None for q in self.prov[h][:pos]):
+            self.after_unnamed += 1
+        left = [a for j, a in enumerate(self.prov[h]) if j != pos]
+        a, b = (self.new(left), self.new(left)) if call == "select" else (self.nxt, self.nxt + 1)
+        if call != "select":
+            self.nxt += 2
+        extra = {"index": 0} if call == "select" else ({"amount": 2} if call == "merge" else {})
+        self.ops.append(dict({"op": call, "h": h, "axis": nm, "out": a, "_axis": pos, "_twin": b}, **extra))
+        self.ops.append(dict({"op": call, "h": h, "axis": pos, "out": b}, **extra))
+
+    def refusal(self, h, extra_unknown=()):
+        """a call on register h that has to be refused: an unknown name, one axis twice, an index out of range"""
+        rng = self.rng
+        pv = self.prov[h]
+        nms = [self.names[a] for a in pv]
+        n = len(pv)
+        have = {x for x in nms if x is not None}
+        blank = any(x is None for x in nms)
+        r = rng.random()
+        kind = None
+        if r < 0.5:
+            pool = ["no_such_axis", "q"] + list(extra_unknown) * 3
+            for x in have:
+                pool += [x.upper(), x.lower(), x + " ", " " + x, x * 2, x[:-1], x + "0"]
+            # (names an unnamed axis might be thought to answer to -- '', 'None', 'axis<i>' -- are left alone: the property
+            # says nothing about them)
+            pool += [str(i) for i in range(n)] if not blank else []
+            if not blank:
+                pool += [f"axis{i}" for i in range(n)]
+            pool = [x for x in pool if x not in have and x not in ("", "None") and not (blank and x.startswith("axis"))]
+            b = rng.choice(pool)
+            kind = "unknown_name"
+        elif r < 0.65:
+            b = rng.choice([n, n + 1, -1, -n])
+            kind = "out_of_range" if b >= 0 else "negative"
+        if kind is not None:
+            if rng.random() < 0.6:
+                base = rng.sample(range(n), rng.randint(0, n - 1))
+                lst = [self.ref(h, q) for q in base]
+                lst.insert(rng.randint(0, len(lst)), b)
+                op = {"op": "projection", "h": h, "axes": lst, "out": self.nxt, "expect": "refused"}
+            else:
+                call = rng.choice(["accumulate", "select", "merge"])
+                op = dict({"op": call, "h": h, "axis": b, "out": self.nxt, "expect": "refused"},
+                          **({"index": 0} if call == "select" else ({"amount": 1} if call == "merge" else {})))
+                kind = f"{call}_bad_axis"
+        else:
+            cand = [q for q in range(n) if nms[q] is not None]
+            if cand and rng.random() < 0.8:
+                j = rng.choice(cand)
+                pair = [nms[j], j] if rng.random() < 0.5 else [j, nms[j]]
+                kind = "dup_mixed_spelling"
+            else:
+                j = rng.randrange(n)
+                pair = [j, j] if nms[j] is None or rng.random() < 0.5 else [nms[j], nms[j]]
+                kind = "dup_same_spelling"
+            lst = list(pair)
+            for q in rng.sample([q for q in range(n) if q != j], rng.randint(0, n - 1)):
+                lst.insert(rng.randint(0, len(lst)), self.ref(h, q))
+            op = {"op": "projection", "h": h, "axes": lst, "out": self.nxt, "expect": "refused"}
+        self.nxt += 1
+        # anywhere after register h exists
+        lo = 0 if h == 0 else next(i for i, o in enumerate(self.ops) if o.get("out") == h) + 1
+        self.ops.insert(rng.randint(lo, len(self.ops)), op)
+        return kind
+
+
+def build_named(rng, setup, d, names, tags, extra, plain2d=None, parent_T=None, p_name=0.6, unknown_on_results=None):
+    """the case: projections of the parent onto every kind of axis list in several spellings, the results addressed again
+    (projection, accumulate, T and a projection of that) by the parent's names and by position, single-axis calls by name
+    next to the same call by index, refused calls"""
+    parent_T = (d == 2) if parent_T is None else parent_T
+    b = NamedBuilder(rng, names, d, plain2d, parent_T, p_name)
+    subsets = [list(s) for m in range(1, d) for s in itertools.combinations(range(d), m)]
+    if d == 4:
+        rest = [s for s in subsets if len(s) > 1]
+        subsets = [s for s in subsets if len(s) == 1] + rng.sample(rest, 4)
+    rng.shuffle(subsets)
+    results = []
+    for s in subsets:
+        order = list(s)
+        rng.shuffle(order)
+        mode = rng.choice(["name", "name", "index", "mixed"])
+        p = {"name": 1.0, "index": 0.0, "mixed": 0.5}[mode]
+        out = b.projection(0, order, p)
+        if len(s) > 1:
+            results.append(out)
+        if rng.random() < 0.35:
+            rng.shuffle(order)
+            b.projection(0, list(order), 1.0 - p if mode != "mixed" else 0.5)     # the other spelling
+    rng.shuffle(results)
+    refuse_at = []
+    for h in results[:3]:
+        n = len(b.prov[h])
+        for pos in rng.sample(range(n), rng.randint(1, n)) if n == 2 else []:
+            b.projection(h, [pos], 0.8)
+        if n == 3:
+            sub = rng.sample(range(3), 2)
+            h2 = b.projection(h, sub, 0.7)
+            b.projection(h2, [rng.randrange(2)], 0.8)
+            b.projection(h, [rng.randrange(3)], 0.8)
+        if rng.random() < 0.6:
+            b.accumulate(h, rng.randrange(n), 0.8)
+        if b.has_T(h):
+            t = b.transpose(h)
+            b.projection(t, [rng.randrange(2)], 0.9)
+            if rng.random() < 0.4:
+                b.transpose(t)
+            if rng.random() < 0.3:
+                b.accumulate(t, rng.randrange(2), 0.9)
+        refuse_at.append(h)
+    for _ in range(rng.randint(1, 2)):
+        b.accumulate(0, rng.randrange(d), 0.7)
+    named = [q for q in range(d) if b.names[q] is not None]
+    if named:
+        for call in ["select"] + (["merge"] if rng.random() < 0.4 else []) + (["accumulate"] if rng.random() < 0.4 else []):
+            # (prefer an axis that comes after an unnamed one)
+            late = [q for q in named if any(b.names[j] is None for j in range(q))]
+            b.twin(0, rng.choice(late if late and rng.random() < 0.7 else named), call)
+    if b.has_T(0):
+        t = b.transpose(0)
+        b.transpose(t)
+        b.projection(t, [rng.randrange(2)], 0.9)
+        if rng.random() < 0.5:
+            b.accumulate(t, rng.randrange(2), 0.9)
+    kinds = []
+    for _ in range(rng.randint(1, 3)):
+        h = rng.choice([0, 0] + refuse_at + refuse_at)
+        unk = ()
+        if unknown_on_results:
+            # names the histogram does NOT carry although its class, or the class of the same coordinates elsewhere, documents
+            # them ('r' on the (rho, phi) projection of a cylindrical histogram, a PolarHistogram)
+            have = {b.names[a] for a in b.prov[h]}
+            unk = [x for x in unknown_on_results if x not in have]
+        kinds.append(b.refusal(h, unk))
+    tags = list(tags) + [f"d:{d}"] + [f"refuse:{k}" for k in kinds]
+    if b.after_unnamed:
+        tags.append("by_name_after_unnamed_axis")
+    extra = dict(extra)
+    if b.unnamed_1d or any(n is None for n in names):
+        extra["no_model"] = True
+    return dict({"kind": "histn", "layout": "named", "ops": list(setup) + b.ops, "tags": tags, "setup": len(setup),
+                 "_names": list(names), "_prov0": list(range(d))}, **extra)
+
+
+# ------------------------------------------------------------------ running the ops of this property on the real library
+
+def step9(s, op, log):
+    """implnd.step plus the two ways of making a parent of a transformed class"""
+    name = op["op"]
+    if name not in ("of_special", "facade"):
+        return implnd.step(s, op, log)
+    from physt import special_histograms as sp
+    try:
+        kw = {}
+        if op.get("names") is not None and op.get("named_by") == "kwarg":
+            kw["axis_names"] = tuple(op["names"])
+        if name == "of_special":
+            klass = getattr(sp, op["class"])
+            axes = [implnd.mk_binning(b) for b in op["axes"]]
+            shape = tuple(len(b["bins"]) for b in op["axes"])
+            dt = np.dtype(op["dtype"])
+            f = implnd.arr_exact(op["freq"], dt).reshape(shape)
+            e = None if op.get("err2") is None else implnd.arr_exact(op["err2"], dt).reshape(shape)
+            r = klass(axes, f, errors2=e, missed=implnd.fl(op.get("missed", "0")), keep_missed=op.get("keep", True), **kw)
+        else:
+            P = np.array([[implnd.fl(v) for v in p] for p in op["points"]], dtype=float)
+            w = None if op.get("weights") is None else np.array([implnd.fl(v) for v in op["weights"]], dtype=float)
+            bins = {k: (v if isinstance(v, int) else [implnd.fl(x) for x in v]) for k, v in op["bins"].items()}
+            fn = getattr(sp, op["fn"])
+            r = fn(P[:, 0], P[:, 1], weights=w, **bins, **kw) if op["fn"] == "polar" else fn(P, weights=w, **bins, **kw)
+        if op.get("names") is not None and op.get("named_by") == "setter":
+            r.axis_names = tuple(op["names"])
+        s.set(op["out"], r)
+        return "ok"
+    except Exception as e:
+        log.append(f"{name}: {type(e).__name__}: {e}"[:200])
+        return implnd.REFUSED
+
+
+def snap9(x):
+    """implnd.snapn plus the axis names as they are (snapn turns a None name into the string 'None')"""
+    d = implnd.snapn(x)
+    d["_raw_names"] = [n if isinstance(n, str) else None for n in x.axis_names]
+    return d
+
+
+def state_key(x):
+    """everything implnd.snapn / snap9 read from a histogram, as bytes and small values (None if it cannot be read)"""
+    try:
+        f, e = np.asarray(x.frequencies), np.asarray(x.errors2)
+        bs = [x.binning] if isinstance(x, implnd.Histogram1D) else list(x.binnings)
+        return (type(x).__name__, f.tobytes(), str(f.dtype), f.shape, e.tobytes(), str(e.dtype), e.shape, repr(x.missed),
+                bool(x.keep_missed), str(x.dtype), tuple(x.axis_names), int(x.ndim), bool(x.is_adaptive()),
+                tuple((type(b).__name__, np.asarray(b.bins).tobytes(), bool(b.is_adaptive())) for b in bs), implnd.meta_repr(x))
+    except Exception:
+        return None
+
+
+def raw_names(reg):
+    r = reg.get("_raw_names")
+    return list(reg["names"]) if r is None else list(r)
+
+
+def find_axis(a, names):
+    """position of the axis reference in a histogram with these (raw) names, None if there is no such axis"""
+    if isinstance(a, str):
+        return names.index(a) if a in names else None
+    return a if 0 <= a < len(names) else None
+
+
+def unnamed(n):
+    return n is None or n == ""
+
+
+def name_kept(got, exp):
+    """is `got` the name of a kept axis whose name was `exp`?  A named axis keeps its name; for an axis without a name the
+    property pins nothing beyond its staying without one (physt shows '' / None, or the default label 'axis<i>')"""
+    if unnamed(exp):
+        return unnamed(got) or (isinstance(got, str) and got.startswith("axis") and got[4:].isdigit())
+    return got == exp
+
+
 class C09(HistNProp):
     ID = "C09"
     N_QUICK = 400
@@ -347,12 +848,36 @@ class C09(HistNProp):
             "weights beyond 2**53; float64 parents of large numbers on a power-of-two grid on which every sum is exact "
             "(f64_grid); float32 parents of mixed large magnitude whose sums are rounded (f32_rounded: oracle and "
             "correspondence at relative 1e-5). All numbers travel as exact integer / rational strings, never through a float. "
+            "Transformed classes (stream:transformed, every 16th case): polar / spherical / spherical-surface / cylindrical / "
+            "cylindrical-surface parents built from arrays (through the model as an ND histogram over the same bins, contents "
+            "and names) or by the facade functions (oracle only), with the class's default axis names, custom names given as "
+            "keyword or through the axis_names setter, the names another class documents for the same coordinate ('r' / 'rho') "
+            "or the class's own names on other axes; projection onto EVERY non-empty proper axis subset (to a specialised class "
+            "or not) by name, by index and mixed, in any order; the 2-d results addressed again by the parent's names of the kept "
+            "axes and by position: projection, accumulate, T (where the result is a Histogram2D) followed by projection / "
+            "accumulate / T; single-axis calls (select, merge_bins, accumulate) by name next to the same call by the index of the "
+            "axis carrying the name; refused: names the histogram does not carry (also those its class documents), one axis "
+            "twice in both spellings, indices out of range. Oracle: names / bins / contents / errors of every projection are those "
+            "of the kept axes of the histogram it was made from, a kept axis answers to the parent's name (addressed_by_name), "
+            "all registers holding the same axes of the parent in the same order are equal (compose; T.T against the original), "
+            "by name = by index (by_name_vs_index). "
+            "Unusual axis names (stream:odd_names, every 16th case): plain 2-d .. 4-d parents with axes without a name ('' or "
+            "None; first / between / last / several / all), names that look like integers ('1' on axis 0), like another axis' "
+            "default name ('axis0' on axis 1), unicode, with blanks, the strings 'None' / 'nan', names of 100 .. 4000 characters "
+            "differing in the last character or in length only; same calls and clauses as above. Not pinned: the label of an "
+            "axis without a name in a result ('' / None / 'axis<i>'), whether '' / 'None' / 'axis<i>' address an unnamed axis "
+            "(never generated). Axes named None and 1-d results whose only axis has no name: oracle only. "
+            "Thorough: every transformed class x every kind of names, every name pattern x d = 2, 3, 4 (4 cases each). "
             "non-trivial = non-zero contents and at least one axis with > 1 bin dropped; distinct = op-list hash")
     FIELDS = {"bins", "shape", "freq", "err2", "total", "dtype", "names", "ndim"}
 
     def gen_case(self, rng, k, tier):
         narrow = (k % 8 == 3) or (tier == "search" and k % 2 == 1)
         big = ENABLE_BEYOND53 and ((k % 8 == 6) or (tier == "search" and k % 4 == 2))
+        if ENABLE_TRANSFORMED and (k % 16 == 0 or (tier == "search" and k % 16 == 4)):
+            return self.gen_transformed(rng)
+        if ENABLE_ODD_NAMES and (k % 16 == 8 or (tier == "search" and k % 16 == 12)):
+            return self.gen_odd_names(rng)
         extra = {}
         if narrow:
             setup, axes, tags = rand_narrow_ops(rng)
@@ -435,9 +960,78 @@ class C09(HistNProp):
             ops.insert(rng.randint(lo, len(ops)), op)        # anywhere in the history
         return dict({"kind": "histn", "ops": ops, "tags": tags, "subset": list(subset), "setup": len(setup)}, **extra)
 
+    def gen_transformed(self, rng, klass=None, names_kind=None):
+        """stream:transformed -- a polar / spherical / spherical-surface / cylindrical / cylindrical-surface parent with the
+        class's default names, custom names, the names another class documents for the same coordinates, or its own names on
+        other axes; every projection (to a specialised class or not), and the results addressed again by the parent's names"""
+        setup, d, believed, tags, extra, plain = rand_special_ops(rng, klass, names_kind)
+        return build_named(rng, setup, d, believed, tags, extra, plain2d=plain, parent_T=False, p_name=0.65,
+                           unknown_on_results=["r", "rho", "phi", "theta", "z"])
+
+    def gen_odd_names(self, rng, d=None, pattern=None):
+        """stream:odd_names -- a plain 2-d .. 4-d parent some of whose axes have no name ('' / None, before / between / after
+        the named ones) or whose names look like integers, like another axis' default name, are unicode or very long"""
+        init, axes = rand_nd_op(rng, d=d, names=False)
+        names, pattern = odd_names(rng, len(axes), pattern)
+        init["names"] = names
+        tags = ["stream:odd_names", f"odd_names:{pattern}"]
+        if any(n is None for n in names):
+            tags.append("odd_names:None")
+        if any(n == "" for n in names):
+            tags.append("odd_names:empty_string")
+        return build_named(rng, [init], len(axes), names, tags, {}, p_name=0.75)
+
+    def run_impl(self, case):
+        s = implnd.Store()
+        outs, log = [], []
+        if case.get("layout") == "named":
+            # many registers, every one read after every step: a register whose whole public state (state_key) is what it was
+            # at the last reading is not converted to rational strings again
+            seen = {}
+            n = len(case["ops"])
+
+            def snap(x):
+                key = state_key(x)
+                hit = seen.get(id(x))
+                if hit is None or key is None or hit[0] != key:
+                    hit = (key, snap9(x))
+                    seen[id(x)] = hit
+                return hit[1]           # (snapshots are only read)
+            for k, op in enumerate(case["ops"]):
+                ret = step9(s, op, log)
+                outs.append({"ret": ret, "regs": [None if x is None else snap(x) for x in s.regs],
+                             "_sharing": implnd._sharing(s.regs) if k == n - 1 else []})
+        for op in case["ops"] if not outs else []:
+            ret = step9(s, op, log)
+            outs.append({"ret": ret, "regs": [None if x is None else snap9(x) for x in s.regs], "_sharing": implnd._sharing(s.regs)})
+        if self.UNOBSERVED and len(case["ops"]) >= 2:
+            # the same history on fresh objects without reading anything between the operations (see implnd.run_unobserved)
+            s2, log2, ret = implnd.Store(), [], None
+            for op in case["ops"]:
+                ret = step9(s2, op, log2)
+            last = {"ret": ret, "regs": [None if x is None else snap9(x) for x in s2.regs], "_sharing": implnd._sharing(s2.regs)}
+            return {"outs": outs, "log": log, "unobserved_outs": outs[:-1] + [last]}
+        return {"outs": outs, "log": log}
+
     def model_case(self, case, io):
-        # unsigned contents are outside the model's types: those cases are judged by the oracle alone
-        return None if case.get("no_model") else case
+        # unsigned contents, parents made by the facade functions of the transformed classes, axes named None and 1-d
+        # results whose only axis has no name are outside the model: those cases are judged by the oracle alone
+        if case.get("no_model"):
+            return None
+        if any(o["op"] == "facade" for o in case["ops"]):
+            return None
+        if any(o["op"] == "of_special" for o in case["ops"]):
+            # a histogram of a transformed class built from arrays: the model's ND histogram over the same bins, contents and
+            # names (the class's documented default names where none were given) -- TransformedHistogramMixin.projection is
+            # HistogramND.projection apart from the class of the result, which is not compared
+            c = copy.deepcopy(case)
+            for o in c["ops"]:
+                if o["op"] == "of_special":
+                    o["op"] = "of_arrays"
+                    if o.get("names") is None:
+                        o["names"] = list(SPECIAL[o["class"]]["defaults"])
+            return c
+        return case
 
     def exhaustive_cases(self, tier):
         if tier != "thorough":
@@ -451,6 +1045,22 @@ class C09(HistNProp):
                     c = self.build(rng, init, axes, subset=list(sub))
                     c["tags"].append("exhaustive_axis_lists")
                     yield c
+        if ENABLE_TRANSFORMED:
+            # every transformed class with every kind of axis names (each case projects onto every axis subset)
+            for klass in SPECIAL:
+                for nk in ("default", "default_explicit", "custom", "other_class_default", "defaults_permuted"):
+                    for _ in range(4):
+                        c = self.gen_transformed(rng, klass, nk)
+                        c["tags"].append("exhaustive_classes_x_names")
+                        yield c
+        if ENABLE_ODD_NAMES:
+            for d in (2, 3, 4):
+                for pattern in ("unnamed_first", "unnamed_between", "unnamed_last", "unnamed_many", "unnamed_all", "digits",
+                                "default_shifted", "unicode", "long", "mixed"):
+                    for _ in range(4):
+                        c = self.gen_odd_names(rng, d, pattern)
+                        c["tags"].append("exhaustive_name_patterns")
+                        yield c
         if not ENABLE_BEYOND53:
             return
         for d in (2, 3, 4):
@@ -532,6 +1142,21 @@ class C09(HistNProp):
             c = copy.deepcopy(case)
             del c["ops"][k]
             yield c
+        if case.get("layout") == "named":
+            # (dropping whole calls keeps the bookkeeping of the remaining ones right; their axis lists stay as they are)
+            # then: plain contents, no squared errors of its own, ordinary short names for the named axes that are long
+            init = ops[0]
+            if init["op"] in ("of_arrays", "of_special"):
+                if init.get("err2") is not None:
+                    c = copy.deepcopy(case)
+                    c["ops"][0]["err2"] = None
+                    yield c
+                simple = [rs(i + 1) for i in range(len(init["freq"]))]
+                if init["freq"] != simple and init["dtype"] in ("int64", "float64"):
+                    c = copy.deepcopy(case)
+                    c["ops"][0]["freq"] = simple
+                    yield c
+            return
         for k in range(ns, len(ops)):
             if ops[k]["op"] == "projection" and not any(o.get("h") == ops[k].get("out") for o in ops[k + 1:]):
                 # (a projection whose result is used later keeps its axes: the later calls were written for that result)
@@ -566,8 +1191,20 @@ class C09(HistNProp):
                             c["ops"][0][key][i] = "0"
                             yield c
 
+    SPECIALISED = ("RadialHistogram", "AzimuthalHistogram", "PolarHistogram", "SphericalSurfaceHistogram", "CylindricalSurfaceHistogram")
+
     def tags(self, case, io):
         t = super().tags(case, io)
+        if case.get("layout") == "named":
+            try:
+                last = io["outs"][-1]["regs"]
+                kinds = {("specialised" if r["_class"] in self.SPECIALISED else "plain") for r in last[1:] if r is not None}
+                if any("stream:transformed" == x for x in case.get("tags", [])):
+                    t += [f"transformed:{k}_class_result" for k in sorted(kinds)]
+                if any(o.get("_axes") and o["h"] != 0 and any(isinstance(a, str) for a in o["axes"]) for o in case["ops"]):
+                    t.append("result_addressed_by_parent_name")
+            except Exception:
+                pass
         try:
             src = io["outs"][case.get("setup", 1) - 1]["regs"][0]
             lim = self.DTYPE_LIMITS.get(src["dtype"])
@@ -604,6 +1241,10 @@ class C09(HistNProp):
         def resolve(a, nm):
             return nm.index(a) if isinstance(a, str) else a
 
+        named = case.get("layout") == "named"
+        # the generator's bookkeeping of the named layout is read only if the parent reports the names it was given
+        believed = named and raw_names(src) == list(case.get("_names") or [])
+
         def flat(a):
             return list(np.asarray(a, dtype=object).ravel())
 
@@ -639,9 +1280,28 @@ class C09(HistNProp):
             par = before[op["h"]] if isinstance(op.get("h"), int) and op["h"] < len(before) else None
             if par is None:
                 continue
+            pn = raw_names(par)
             if op["op"] in ("projection", "accumulate", "select", "merge", "partial_normalize"):
                 lst = op["axes"] if op["op"] == "projection" else [op["axis"]]
-                why = axis_list_problem(lst, par["names"], par["ndim"])
+                intent = None
+                if believed and op.get("expect") != "refused":
+                    intent = op.get("_axes") if op["op"] == "projection" else ([op["_axis"]] if "_axis" in op else None)
+                if isinstance(intent, list) and len(intent) == len(lst) and len(set(intent)) == len(intent) and \
+                        all(isinstance(q, int) and 0 <= q < par["ndim"] for q in intent):
+                    # every reference by name is the PARENT's name of an axis this histogram kept (at position q): the
+                    # histogram must carry that name on that axis
+                    lost = [(a, q) for a, q in zip(lst, intent) if find_axis(a, pn) != q]
+                    if lost:
+                        a, q = lost[0]
+                        at = find_axis(a, pn)
+                        call = f"projection{tuple(lst)}" if op["op"] == "projection" else f"{op['op']}({lst[0]!r})"
+                        fails.append(f"addressed_by_name: {call} of {self.path(case, op['h'])}, a {par['ndim']}-d histogram whose axes "
+                                     f"are reported as {pn} (the parent's axes are {raw_names(src)}): {a!r} is the parent's name of "
+                                     f"the axis kept at position {q}, " + ("but no axis of the histogram carries it" if at is None
+                                                                            else f"but it is found on axis {at}")
+                                     + (" -- the call was refused" if ret == "REFUSED" else ""))
+                        continue
+                why = axis_list_problem(lst, pn, par["ndim"])
                 if why is not None:
                     if ret != "REFUSED":
                         got = regs[op["out"]] if op.get("out", 10**6) < len(regs) else None
@@ -656,10 +1316,10 @@ class C09(HistNProp):
                     continue        # with an existing axis: other properties' business
             if ret == "REFUSED":
                 fails.append(f"refused_valid: {op} of the {par['dtype']} histogram {par['freq']} (shape {par['shape']}, axes "
-                             f"{par['names']}) refused: " + "; ".join(io["log"][:2]))
+                             f"{pn}) refused: " + "; ".join(io["log"][:2]))
                 continue
             if op["op"] == "projection":
-                pn, pd = par["names"], par["ndim"]
+                pd = par["ndim"]
                 PF = obj_arr(par["freq"], par["shape"])
                 PE = obj_arr(par["err2"], par["shape"])
                 axs = sorted(resolve(a, pn) for a in op["axes"])
@@ -668,7 +1328,8 @@ class C09(HistNProp):
                 ef = PF.sum(axis=drop) if drop else PF
                 ee = PE.sum(axis=drop) if drop else PE
                 if not same(r["freq"], flat(ef)):
-                    fails.append(f"marginal: projection{tuple(op['axes'])} of the {par['dtype']} histogram {par['freq']} (shape "
+                    whose = f" {self.path(case, op['h'])} with axes {pn}," if named else ""
+                    fails.append(f"marginal: projection{tuple(op['axes'])} of the {par['dtype']} histogram{whose} {par['freq']} (shape "
                                  f"{par['shape']}): contents {r['freq']} are not the sums over the dropped axes "
                                  f"{[str(x) for x in flat(ef)]}{bits(flat(ef))}")
                 if not same(r["err2"], flat(ee)):
@@ -677,8 +1338,10 @@ class C09(HistNProp):
                                  f"the dropped axes {[str(x) for x in flat(ee)]}{bits(flat(ee))}")
                 if r["bins"] != [par["bins"][i] for i in axs]:
                     fails.append(f"proj_bins: projection{tuple(op['axes'])} bins are not those of axes {axs} in original order")
-                if r["names"] != [pn[i] for i in axs]:
-                    fails.append(f"proj_names: projection{tuple(op['axes'])} names {r['names']}, expected {[pn[i] for i in axs]}")
+                rn = raw_names(r)
+                if len(rn) != len(axs) or not all(name_kept(g, pn[i]) for g, i in zip(rn, axs)):
+                    fails.append(f"proj_names: projection{tuple(op['axes'])} of {self.path(case, op['h'])} (a {par.get('_class')} with "
+                                 f"axes {pn}) has axis names {rn}, the kept axes {axs} are named {[pn[i] for i in axs]}")
                 if not same([r["total"]], [par["total"]]):
                     fails.append(f"proj_total: total changed from {par['total']} to {r['total']}")
                 elif not same([r["total"]], [sum(flat(PF), Fraction(0))]):
@@ -686,22 +1349,37 @@ class C09(HistNProp):
                                  f"{sum(flat(PF), Fraction(0))} of the parent's contents {par['freq']}")
                 if r["ndim"] != len(axs):
                     fails.append("proj_ndim")
-            if op["op"] == "accumulate" and op["h"] == 0:
-                ax = resolve(op["axis"], src["names"])
+            if op["op"] == "accumulate" and (op["h"] == 0 or named):
+                ax = resolve(op["axis"], pn)
                 r = regs[op["out"]]
-                cs = np.cumsum(F, axis=ax)
+                AF = obj_arr(par["freq"], par["shape"])
+                cs = np.cumsum(AF, axis=ax)
                 if not same(r["freq"], flat(cs)):
-                    fails.append(f"accumulate: accumulate({op['axis']!r}) of the {src['dtype']} histogram {src['freq']} (shape "
-                                 f"{src['shape']}) gives {r['freq']}, not the running sums along axis {ax} {[str(x) for x in flat(cs)]}")
-                elif r["shape"] == src["shape"]:
+                    fails.append(f"accumulate: accumulate({op['axis']!r}) of the {par['dtype']} histogram {par['freq']} (shape "
+                                 f"{par['shape']}, axes {pn}) gives {r['freq']}, not the running sums along axis {ax} "
+                                 f"{[str(x) for x in flat(cs)]}")
+                elif r["shape"] == par["shape"]:
                     # last cumulative entry = marginal over that axis
                     lastslice = flat(np.take(obj_arr(r["freq"], r["shape"]), -1, axis=ax))
-                    if not same(lastslice, flat(F.sum(axis=ax))):
+                    if not same(lastslice, flat(AF.sum(axis=ax))):
                         fails.append(f"accumulate_last: the last entries of accumulate({op['axis']!r}) are not the marginal over axis {ax}")
-                if r["bins"] != src["bins"] or r["names"] != src["names"]:
+                if r["bins"] != par["bins"] or raw_names(r) != pn:
                     fails.append("accumulate_bins: accumulate changed bins or names")
+            if op["op"] == "T" and named and par["ndim"] == 2:
+                t = regs[op["out"]]
+                if t["bins"] != par["bins"][::-1] or raw_names(t) != pn[::-1]:
+                    fails.append(f"T_bins_names: T of {self.path(case, op['h'])} (axes {pn}) does not swap bins and names: axes "
+                                 f"{raw_names(t)}, bins {t['bins']}")
+                TF, TE = obj_arr(par["freq"], par["shape"]).T, obj_arr(par["err2"], par["shape"]).T
+                if [Fraction(x) for x in t["freq"]] != flat(TF) or [Fraction(x) for x in t["err2"]] != flat(TE):
+                    fails.append(f"T_contents: T of {self.path(case, op['h'])} does not transpose contents / errors")
+                if t["missed"] != par["missed"] or t["dtype"] != par["dtype"]:
+                    fails.append(f"T_missed: T changed missed / dtype from {par['missed']} / {par['dtype']} to {t['missed']} / {t['dtype']}")
         last = outs[-1]["regs"]
         fails += self.direct_clause(case, outs, same)
+        if named:
+            fails += self.named_clauses(case, outs, believed)
+            return fails[:6]
         if len(last) > 3 and last[2] is not None and last[3] is not None and self.same_final_axes(case, src):
             a, b = last[2], last[3]
             for f in ("bins", "names", "freq", "err2", "shape"):
@@ -720,6 +1398,79 @@ class C09(HistNProp):
             if t["missed"] != src["missed"]:
                 fails.append(f"T_missed: T changed missed from {src['missed']} to {t['missed']}")
         return fails[:6]
+
+    @staticmethod
+    def path(case, r):
+        """how register r was obtained from the parent `h`, as an expression"""
+        if r == 0:
+            return "h"
+        op = next((o for o in case["ops"] if o.get("out") == r and o.get("expect") != "refused"), None)
+        if op is None:
+            return f"<register {r}>"
+        base = C09.path(case, op["h"]) if isinstance(op.get("h"), int) and op["h"] != r else "?"
+        if op["op"] == "projection":
+            return f"{base}.projection({', '.join(repr(a) for a in op['axes'])})"
+        if op["op"] == "T":
+            return base + ".T"
+        if op["op"] == "select":
+            return f"{base}.select({op['axis']!r}, {op.get('index')})"
+        if op["op"] == "merge":
+            return f"{base}.merge_bins({op.get('amount')}, axis={op['axis']!r})"
+        return f"{base}.{op['op']}({op.get('axis')!r})"
+
+    def named_clauses(self, case, outs, believed):
+        """clauses of the `named` layout that relate several registers (read from the final state):
+        * by name = by index: a call that names its axis gives what the same call gives with the index of the axis that
+          carries the name (`_twin`), and is refused only if that one is;
+        * projecting in steps = projecting once: all registers that hold the same axes of the parent in the same order
+          (`_prov`: reached by one projection, by several, through T and T.T, in whatever spelling) are the same histogram."""
+        ops, ns = case["ops"], case.get("setup", 1)
+        last = outs[-1]["regs"]
+        out = []
+        pub = lambda reg: {k: v for k, v in reg.items() if not k.startswith("_")}
+        live = lambda r: isinstance(r, int) and r < len(last) and last[r] is not None
+        for k, op in enumerate(ops):
+            if k < ns or "_twin" not in op or op.get("expect") == "refused":
+                continue
+            tk = next((j for j, o in enumerate(ops) if o.get("out") == op["_twin"] and j >= ns), None)
+            if tk is None:
+                continue
+            tw = ops[tk]
+            par = outs[k - 1]["regs"][op["h"]] if op["h"] < len(outs[k - 1]["regs"]) else None
+            if par is None or tw["op"] != op["op"] or tw.get("h") != op["h"] or \
+                    any(tw.get(f) != op.get(f) for f in ("index", "amount")):
+                continue
+            if not isinstance(op["axis"], str) or not isinstance(tw["axis"], int) or find_axis(op["axis"], raw_names(par)) != tw["axis"]:
+                continue            # (not the same axis by the histogram's own names: the other clauses speak)
+            ra, rb = outs[k]["ret"], outs[tk]["ret"]
+            call = lambda a: f"{op['op']}({a!r}" + "".join(f", {op[f]}" for f in ("index", "amount") if f in op) + ")"
+            where = f"{self.path(case, op['h'])} (axes {raw_names(par)}, shape {par['shape']})"
+            if (ra == "REFUSED") != (rb == "REFUSED"):
+                out.append(f"by_name_vs_index: {call(op['axis'])} of {where} was {'refused' if ra == 'REFUSED' else 'accepted'} but "
+                           f"{call(tw['axis'])}, the axis carrying that name, was {'refused' if rb == 'REFUSED' else 'accepted'}")
+            elif ra != "REFUSED" and live(op["out"]) and live(tw["out"]):
+                a, b = pub(last[op["out"]]), pub(last[tw["out"]])
+                if a != b:
+                    f = next(f for f in sorted(a) if a[f] != b.get(f))
+                    out.append(f"by_name_vs_index: {call(op['axis'])} of {where} differs from {call(tw['axis'])}, the axis carrying "
+                               f"that name, in {f}: {a[f]} vs {b.get(f)}")
+        if believed:
+            groups = {}
+            if last and last[0] is not None and case.get("_prov0") is not None:
+                groups[tuple(case["_prov0"])] = [0]
+            for k, op in enumerate(ops):
+                if k >= ns and "_prov" in op and op.get("expect") != "refused" and outs[k]["ret"] != "REFUSED" and live(op.get("out")):
+                    groups.setdefault(tuple(op["_prov"]), []).append(op["out"])
+            for prov, rs_ in groups.items():
+                a = last[rs_[0]]
+                for r in rs_[1:]:
+                    b = last[r]
+                    for f in ("bins", "names", "freq", "err2", "shape"):
+                        if a[f] != b[f]:
+                            out.append(f"compose: {self.path(case, rs_[0])} and {self.path(case, r)} both hold the parent's axes "
+                                       f"{list(prov)} but differ in {f}: {a[f]} vs {b[f]}")
+                            break
+        return out
 
     @staticmethod
     def same_final_axes(case, src):
